@@ -165,18 +165,23 @@ def explore(h: Harness, max_paths=200000, max_seconds=None, witnesses_per_outcom
             validated += 1
     # replay of violations
     viols = []
+    spurious = 0
     for v in ex.violations:
+        r = None
         try:
             r = h.concrete(v["inputs"])
             rep = {"reproduced": bool(r.get("violation")), "key": r.get("violation"), "observed": r.get("observed"),
                    "outcome": r.get("outcome")}
         except Exception as e:  # noqa: BLE001
             rep = {"reproduced": False, "key": None, "observed": f"replay crashed: {type(e).__name__}: {e}"}
+        if rep.get("reproduced") is False and r is not None and r.get("spurious"):
+            spurious += 1
+            continue
         viols.append({"harness": h.name, "params": h.params, "label": v["label"], "detail": v["detail"],
                       "inputs": v["inputs"], "notes": v.get("notes", []), **rep})
     st = ex.stats()
     st.update({"harness": h.name, "params": h.params, "violations_list": viols, "witnesses_validated": validated,
-               "witness_mismatches": mismatches[:5], "functions": sorted(funcs), "samples": witnesses[:3],
+               "witness_mismatches": mismatches[:5], "functions": sorted(funcs), "samples": witnesses[:3], "spurious_models": spurious,
                "total_wall_s": round(time.perf_counter() - t0, 3)})
     return st
 
